@@ -169,6 +169,9 @@ func (r *runner) reopen(latest int64) bool {
 // dims names how the variant differs from the base (violation key suffix).
 func (v variant) dims() string {
 	var d []string
+	if v.name == "import" {
+		d = append(d, "import")
+	}
 	if v.cache != baseVariant.cache {
 		d = append(d, fmt.Sprintf("cache%d", v.cache))
 	}
@@ -512,9 +515,13 @@ func buildBaseline(c *vf.Ctx, id int, h *bpgen.History, rng *rand.Rand, st *stat
 			tree.Rollback()
 			m.Load(lastSnap)
 		case bpgen.OpSave:
+			before := append([]byte(nil), tree.WorkingHash()...)
 			hash, ver, err := tree.SaveVersion()
 			if err != nil || int(ver) != len(b.hashes) {
 				return fail("base:save-error", "op %d save: version %d err %v", i, ver, err)
+			}
+			if !bytes.Equal(before, hash) {
+				return fail("base:working-hash-differs-from-saved", "op %d: WorkingHash just before the save %x, SaveVersion hash %x", i, before, hash)
 			}
 			lastSnap = m.Snapshot()
 			b.hashes = append(b.hashes, append([]byte(nil), hash...))
@@ -550,6 +557,24 @@ func buildBaseline(c *vf.Ctx, id int, h *bpgen.History, rng *rand.Rand, st *stat
 		}
 		if i%41 == 7 {
 			b.working[i] = append([]byte(nil), tree.WorkingHash()...)
+			if i%4 == 0 { // the uncommitted working hash must be recomputable from the node contents too
+				view, err := tree.VerifWorkingView()
+				if err != nil {
+					return fail("base:walk-error", "working tree after op %d: %v", i, err)
+				}
+				problems := 0
+				res := bpgen.Walk(view, bpgen.Lookup(&m), false, m.Len(), func(sig, detail string) {
+					problems++
+					fail("base:working:"+sig, "after op %d: %s", i, detail)
+				})
+				if problems > 0 {
+					return nil
+				}
+				st.add(func() { st.walks++ })
+				if !bytes.Equal(res.RootHash[:], b.working[i]) {
+					return fail("base:working-hash-not-recomputable", "after op %d: WorkingHash %x, hash recomputed from node contents and model values %x", i, b.working[i], res.RootHash)
+				}
+			}
 		}
 	}
 	// export a sample of versions (all when few)
@@ -625,7 +650,7 @@ func histKey(h *bpgen.History) string {
 
 func run(c *vf.Ctx) {
 	defer debug.SetGCPercent(debug.SetGCPercent(400))
-	n := c.N(40, 700)
+	n := c.N(30, 450)
 	st := &stats{variants: map[string]int{}}
 	var h3, totalVersions, totalSplits int64
 	var mu sync.Mutex
